@@ -6,11 +6,14 @@ import FeatherModel.Model.Mappings
 (`TinyLine`, `WithMoreIdentIter`), `quill/src/tree/mappings.rs` (`add_child`), name checks of
 `duke/src/tree/mod.rs` (`mod names`).
 
-Text is a list of code points. The model mirrors the code *as it is* (after the fixes a79b1fd, 4f3eba6), including:
+Text is a list of code points. The model mirrors the code *as it is* (after the fixes a79b1fd, 4f3eba6 and the header
+section fix), including:
 * comments are escaped (`\\`, `\n`, `\r`, `\t`) and `unescape` keeps a backslash that starts no escape sequence;
 * `write` refuses (clean `Err`, `write? = none`) a namespace, name or descriptor that contains TAB / LF / CR or is not
   valid UTF-8 (lone surrogate) - function `cell` of `tiny_v2.rs`;
-* the top-level comment is still written at indentation 1, which `read` then rejects (open finding).
+* the comment of the mapping set itself is written as a property line of the header section (indentation 1, directly
+  after the header line) and `read` consumes that section before the class loop: a `c` line there sets the comment (a
+  second one is an error), other property lines are ignored, deeper indentation is an error (`headerSec`).
 -/
 
 namespace Tiny
@@ -348,6 +351,23 @@ def run (n : Nat) : St → List TLine → Option St
 
 def TINY : JStr := [116, 105, 110, 121]
 
+/-- the section of the header itself, `WithMoreIdentIter::new(&mut lines).next_level().on_every_line(..)`: the loop at
+depth 1 directly after the header line. A line at indentation 0 (or the end of the input) ends it and is left for the
+class loop; a deeper line is the iterator's error; a `c` line is `add_comment(&mut mappings.javadoc, line)`; every other
+property line is ignored. Result: the comment and the lines that are left. -/
+def headerSec : Option JStr → List TLine → Option (Option JStr × List TLine)
+  | doc, [] => some (doc, [])
+  | doc, l :: ls =>
+    match l.indent with
+    | 0 => some (doc, l :: ls)
+    | 1 =>
+      if l.first = C_ then
+        match setDoc doc l with
+        | none => none
+        | some d => headerSec d ls
+      else headerSec doc ls
+    | _ => none
+
 /-- `tiny_v2::read::<N>`. The final "expected end of input" check of the Rust code is unreachable: the depth-0 loop only
 stops at the end of the input. The indentation of the header line is not looked at. -/
 def read (n : Nat) (text : List Nat) : Option Mappings :=
@@ -362,9 +382,12 @@ def read (n : Nat) (text : List Nat) : Option Mappings :=
       else if zero ≠ [48] then none
       else if nss.length ≠ n then none
       else if nss.any (·.isEmpty) then none
-      else match run n { depth := 0, kind := .field, classes := [] } ls with
+      else match headerSec none ls with
         | none => none
-        | some s => some { ns := nss, doc := none, classes := s.classes }
+        | some (doc, body) =>
+          match run n { depth := 0, kind := .field, classes := [] } body with
+          | none => none
+          | some s => some { ns := nss, doc := doc, classes := s.classes }
     | _ => none
 
 /-! ## canonical form, well-formedness and the proved domain (all decidable, shared with the driver) -/
@@ -402,10 +425,10 @@ def classOk (n : Nat) (c : Class) : Bool :=
   namesOk validClass n c.names && (c.fields.all fun (_, f) => fieldOk n f) && c.methods.all fun (_, m) => methodOk n m
 
 /-- the proved domain of the round trip and of the fixed point: what `write` accepts (`cellOk`), names valid for their
-newtype and present in the first namespace where they are keys (`wf`), no comment on the mapping set itself. Comments of
-classes, fields, methods and parameters are arbitrary. -/
+newtype and present in the first namespace where they are keys (`wf`). All comments - of the mapping set itself, of
+classes, fields, methods and parameters - are arbitrary. -/
 def writable (n : Nat) (m : Mappings) : Bool :=
-  decide (2 ≤ n) && m.ns.length == n && (m.ns.all fun s => !s.isEmpty && cellOk s) && m.doc.isNone &&
+  decide (2 ≤ n) && m.ns.length == n && (m.ns.all fun s => !s.isEmpty && cellOk s) &&
     wf m && m.classes.all fun (_, c) => classOk n c
 
 /-! ### content equality: the same entries in any insertion order at every level (decided through key order) -/
@@ -437,6 +460,35 @@ def contentEqB (a b : Mappings) : Bool :=
 
 
 /-! ### how the reader classifies lines; entry counts (used by the `read_counts` theorem and its oracle) -/
+
+/-- the lines after the header line that belong to the header's own section: everything before the first line at
+indentation 0 (a function of the text alone) -/
+def headerPart (ls : List TLine) : List TLine := ls.takeWhile fun l => l.indent != 0
+
+/-- the lines the class loop sees: from the first line at indentation 0 on -/
+def bodyPart (ls : List TLine) : List TLine := ls.dropWhile fun l => l.indent != 0
+
+/-- the comment lines of a header section -/
+def headerDocLines (ls : List TLine) : List TLine := (headerPart ls).filter fun l => l.first == C_
+
+/-- the comment a header section yields, from the text alone: the cell of its first comment line, unescaped -/
+def headerDoc (ls : List TLine) : Option JStr := (headerDocLines ls).head?.bind commentOf
+
+/-- decidable shape of a refused header section: a line deeper than a property line, or more than one comment -/
+def headerBad (ls : List TLine) : Bool :=
+  (headerPart ls).any (fun l => decide (2 ≤ l.indent)) || decide (2 ≤ (headerDocLines ls).length)
+
+/-- `ls'` is `ls` without its line `k`, which stands in the header section and is a property line other than a comment -/
+def ignoredAt (ls ls' : List TLine) (k : Nat) : Bool :=
+  match ls[k]? with
+  | some l => ((ls.take k).all fun x => x.indent != 0) && l.indent == 1 && l.first != C_ && ls' == ls.eraseIdx k
+  | none => false
+
+/-- line `k` stands at indentation 0 and is no class line, line `k + 1` is indented -/
+def orphanAt (ls : List TLine) (k : Nat) : Bool :=
+  match ls[k]?, ls[k + 1]? with
+  | some l0, some l => l0.indent == 0 && l0.first != C_ && decide (1 ≤ l.indent)
+  | _, _ => false
 
 /-- how `step` treats a line, given the kind of the member that was opened last -/
 inductive LineKind where
